@@ -93,7 +93,8 @@ class ContentsOf(Protocol):
 
 class RealEntriesIfDirExists(EntriesIfDirExists):
     def entries_if_dir_exists(self, path):
-        if os.path.exists(path):
+        # isdir: a regular file called info (or files) has no entries
+        if os.path.isdir(path):
             for entry in os.listdir(path):
                 yield entry
 
